@@ -41,7 +41,10 @@ def check(prop, tier, seed, replay=None):
                 l = G.line(inst) + ' ext=%s' % C.fmt(es) + (' str=%s' % C.fmt(ss) if ss else '') + (' pv=%d' % pv if pv else '') + ' thr=%d' % T
                 lines.append(l)
     mout = C.driver(lines)
-    keep = [(l, m) for l, m in zip(lines, mout) if m.startswith('mem=')]
+    # admissibility of the shared view's mapping is the model's (Layout.admB): the same mapping as a `map ... adm` line
+    adm = C.driver(['map ' + l.split(' ', 1)[1].split(' thr=')[0] + ' adm' for l in lines])
+    rep.notes['inadmissible_lines_dropped'] = sum(1 for a in adm if a != 'ok 1')
+    keep = [(l, m) for l, m, a in zip(lines, mout, adm) if m.startswith('mem=') and a == 'ok 1']
     try: exe, secs, cached = build()
     except C.BuildError as e:
         rep.broke(dict(correspondence='TSan op server build', why=str(e), log=e.log[-3000:])); return rep.finish(audit)
